@@ -137,6 +137,61 @@ Theorem stft_real_coeff_is_twice_half :
 Proof. exact real_coeff_is_twice_half_l. Qed.
 Print Assumptions stft_real_coeff_is_twice_half.
 
+(* ---- the Hermitian symmetry assumed above is a theorem about the DFT of a real frame ----
+   C: any structure with an additive, multiplicative conjugation fixing the (real) samples; tw m = w^m has
+   period D and conj (tw m) = tw (-m); dft k = sum_{n<L} x n * tw (k n) (zero padding beyond L).  Then
+   dft (D - k) = conj (dft k) for every k, and the two theorems above hold of the DFT with no symmetry
+   hypothesis left (what remains trusted: np.fft.rfft computes this sum) *)
+From Verif Require Import Stft.Dft.
+Theorem dft_hermitian :
+  forall (C : Type) (czero : C) (cadd cmul : C -> C -> C) (cconj : C -> C),
+  (forall a b, cconj (cadd a b) = cadd (cconj a) (cconj b)) ->
+  (forall a b, cconj (cmul a b) = cmul (cconj a) (cconj b)) ->
+  cconj czero = czero ->
+  forall (D : Z) (tw : Z -> C),
+  (forall m, tw (m + D) = tw m) -> (forall m, cconj (tw m) = tw (- m)) ->
+  forall (L : Z) (x : Z -> C), (forall n, cconj (x n) = x n) ->
+  forall k : Z, dft C czero cadd cmul tw L x (D - k) = cconj (dft C czero cadd cmul tw L x k).
+Proof. exact dft_hermitian_l. Qed.
+Print Assumptions dft_hermitian.
+Theorem stft_coeff_full_spectrum_of_dft :
+  forall (C : Type) (czero : C) (cadd cmul : C -> C -> C) (cconj : C -> C),
+  (forall a b, cconj (cadd a b) = cadd (cconj a) (cconj b)) ->
+  (forall a b, cconj (cmul a b) = cmul (cconj a) (cconj b)) ->
+  cconj czero = czero ->
+  forall D : Z, 0 < D ->
+  forall tw : Z -> C, (forall m, tw (m + D) = tw m) -> (forall m, cconj (tw m) = tw (- m)) ->
+  forall (L : Z) (x : Z -> C), (forall n, cconj (x n) = x n) ->
+  forall (M : Type) (mzero : M) (mplus : M -> M -> M) (phi : C -> C -> M),
+  (forall a b, mplus a b = mplus b a) -> (forall a b c, mplus a (mplus b c) = mplus (mplus a b) c) ->
+  (forall a, mplus mzero a = a) -> (forall v, phi v czero = mzero) ->
+  forall (start len : Z) (t : Z -> C), 0 <= start < D -> 0 <= len <= D ->
+  code_coeff C M cconj mzero mplus phi D (dft C czero cadd cmul tw L x) start len t =
+  Some (msum M mzero mplus (fun k => phi (dft C czero cadd cmul tw L x k) (rebuild C czero D start len t k)) (range 0 D)).
+Proof. exact dft_coeff_full_spectrum_l. Qed.
+Print Assumptions stft_coeff_full_spectrum_of_dft.
+Theorem stft_real_coeff_is_twice_half_of_dft :
+  forall (C : Type) (czero : C) (cadd cmul : C -> C -> C) (cconj : C -> C),
+  (forall a b, cconj (cadd a b) = cadd (cconj a) (cconj b)) ->
+  (forall a b, cconj (cmul a b) = cmul (cconj a) (cconj b)) ->
+  cconj czero = czero ->
+  forall D : Z, 0 < D ->
+  forall tw : Z -> C, (forall m, tw (m + D) = tw m) -> (forall m, cconj (tw m) = tw (- m)) ->
+  forall (L : Z) (x : Z -> C), (forall n, cconj (x n) = x n) ->
+  forall (M : Type) (mzero : M) (mplus : M -> M -> M) (phi : C -> C -> M),
+  (forall a b, mplus a b = mplus b a) -> (forall a b c, mplus a (mplus b c) = mplus (mplus a b) c) ->
+  (forall a, mplus mzero a = a) -> (forall v, phi v czero = mzero) ->
+  (forall v t, phi (cconj v) (cconj t) = phi v t) ->
+  forall (start len : Z) (t : Z -> C),
+  0 <= start -> 0 <= len -> start + len <= D / 2 + 1 ->
+  (start = 0 -> 0 < len -> forall v, phi v (t 0) = mzero) ->
+  (D mod 2 = 0 -> start <= D / 2 < start + len -> forall v, phi v (t (D / 2 - start)) = mzero) ->
+  let S := msum M mzero mplus (fun j => phi (dft C czero cadd cmul tw L x (start + j)) (t j)) (range 0 len) in
+  mplus S S =
+  msum M mzero mplus (fun k => phi (dft C czero cadd cmul tw L x k) (rebuild_real C czero cconj D start len t k)) (range 0 D).
+Proof. exact dft_real_coeff_is_twice_half_l. Qed.
+Print Assumptions stft_real_coeff_is_twice_half_of_dft.
+
 (* with the default frame length every filter keeps a DFT bin strictly inside its support *)
 Theorem default_length_keeps_a_bin :
   forall rate Dr Lr lo hi bw : R,
